@@ -5,7 +5,7 @@ EXTENDS Spinlock, TLAPS
 
 ASSUME NoBug == Bug = "none"
 
-PCs == {"idle", "acq", "try", "wonA", "wonT", "lost", "cs", "rel", "released", "sawfree"}
+PCs == {"idle", "acq", "try", "wonA", "wonT", "lost", "cs", "rel", "released", "sawfree", "srel", "sreleased"}
 \* mutual exclusion without cardinalities
 AtMostOne == \A t, u \in Tasks : (t \in Holding /\ u \in Holding) => t = u
 Inv == /\ state \in {0, 1}
@@ -13,6 +13,7 @@ Inv == /\ state \in {0, 1}
        /\ \A t \in Tasks : pc[t] # "sawfree"
        /\ state = 0 => Holding = {}
        /\ AtMostOne
+       /\ \A t, u \in Tasks : (pc[t] \in {"srel", "sreleased"} /\ u # t) => pc[u] = "idle"
 
 LSpec == LockInit /\ [][LockNext]_lockvars
 
@@ -24,14 +25,20 @@ LEMMA StepInv == Inv /\ [LockNext]_lockvars => Inv'
   OBVIOUS
 <1>1. CASE UNCHANGED lockvars
   BY <1>1 DEF Inv, lockvars, Holding, AtMostOne
-<1>2. ASSUME NEW t \in Tasks, Call(t, "acq") \/ Call(t, "try") PROVE Inv'
-  BY <1>2 DEF Inv, Call, Holding, AtMostOne, PCs
+<1>2. ASSUME NEW t \in Tasks, NoStray /\ (Call(t, "acq") \/ Call(t, "try")) PROVE Inv'
+  BY <1>2 DEF Inv, Call, NoStray, Holding, AtMostOne, PCs
 <1>3. ASSUME NEW t \in Tasks, XchgOk(t) PROVE Inv'
   BY <1>3 DEF Inv, XchgOk, Holding, AtMostOne, PCs
 <1>4. ASSUME NEW t \in Tasks, XchgBusy(t) PROVE Inv'
   BY <1>4, NoBug DEF Inv, XchgBusy, Holding, AtMostOne, PCs
 <1>5. ASSUME NEW t \in Tasks, Store0(t) PROVE Inv'
   BY <1>5, NoBug DEF Inv, Store0, Holding, AtMostOne, PCs
+<1>11. ASSUME NEW t \in Tasks, StrayCall(t) PROVE Inv'
+  BY <1>11 DEF Inv, StrayCall, AllIdle, Holding, AtMostOne, PCs
+<1>12. ASSUME NEW t \in Tasks, StrayStore(t) PROVE Inv'
+  BY <1>12, NoBug DEF Inv, StrayStore, Holding, AtMostOne, PCs
+<1>13. ASSUME NEW t \in Tasks, StrayRet(t) PROVE Inv'
+  BY <1>13 DEF Inv, StrayRet, Holding, AtMostOne, PCs
 <1>6. ASSUME NEW t \in Tasks, NonAtomicRead(t) \/ NonAtomicWrite(t) PROVE Inv'
   BY <1>6, NoBug DEF Inv, NonAtomicRead, NonAtomicWrite
 <1>7. ASSUME NEW t \in Tasks, RetOk(t) PROVE Inv'
@@ -43,7 +50,7 @@ LEMMA StepInv == Inv /\ [LockNext]_lockvars => Inv'
 <1>10. ASSUME NEW t \in Tasks, RelRet(t) PROVE Inv'
   BY <1>10 DEF Inv, RelRet, Holding, AtMostOne, PCs
 <1> QED
-  BY <1>1, <1>2, <1>3, <1>4, <1>5, <1>6, <1>7, <1>8, <1>9, <1>10 DEF LockNext, Silent, Visible
+  BY <1>1, <1>2, <1>3, <1>4, <1>5, <1>6, <1>7, <1>8, <1>9, <1>10, <1>11, <1>12, <1>13 DEF LockNext, Silent, Visible
 
 THEOREM MutualExclusionForAnyTasks == LSpec => []AtMostOne
 <1>1. Inv => AtMostOne
